@@ -12,6 +12,56 @@ namespace Liftbridge.GoMini
 
 attribute [gomini] R.bind_ok R.bind_panic R.bind_stuck R.pure_eq
 
+mutual
+theorem Val.beq_self : ∀ v : Val, Val.beq v v = true
+  | .int a => by simp [Val.beq]
+  | .bool a => by simp [Val.beq]
+  | .str a => by simp [Val.beq]
+  | .nil => by simp [Val.beq]
+  | .list xs => by simp [Val.beq, Val.beqList_self xs]
+  | .struct fs => by simp [Val.beq, Val.beqFields_self fs]
+  | .tup xs => by simp [Val.beq, Val.beqList_self xs]
+theorem Val.beqList_self : ∀ xs : List Val, Val.beqList xs xs = true
+  | [] => by simp [Val.beqList]
+  | x :: xs => by simp [Val.beqList, Val.beq_self x, Val.beqList_self xs]
+theorem Val.beqFields_self : ∀ fs : List (String × Val), Val.beqFields fs fs = true
+  | [] => by simp [Val.beqFields]
+  | (k, x) :: xs => by simp [Val.beqFields, Val.beq_self x, Val.beqFields_self xs]
+end
+attribute [gomini] Val.beq_self
+
+mutual
+theorem Val.eq_of_beq : ∀ a b : Val, Val.beq a b = true → a = b
+  | .int a, .int b, h => by simp [Val.beq] at h; rw [h]
+  | .bool a, .bool b, h => by simp [Val.beq] at h; rw [h]
+  | .str a, .str b, h => by simp [Val.beq] at h; rw [h]
+  | .nil, .nil, _ => rfl
+  | .list xs, .list ys, h => by simp [Val.beq] at h; rw [Val.eq_of_beqList xs ys h]
+  | .struct fs, .struct gs, h => by simp [Val.beq] at h; rw [Val.eq_of_beqFields fs gs h]
+  | .tup xs, .tup ys, h => by simp [Val.beq] at h; rw [Val.eq_of_beqList xs ys h]
+  | .int _, .bool _, h | .int _, .str _, h | .int _, .nil, h | .int _, .list _, h | .int _, .struct _, h | .int _, .tup _, h => by simp [Val.beq] at h
+  | .bool _, .int _, h | .bool _, .str _, h | .bool _, .nil, h | .bool _, .list _, h | .bool _, .struct _, h | .bool _, .tup _, h => by simp [Val.beq] at h
+  | .str _, .int _, h | .str _, .bool _, h | .str _, .nil, h | .str _, .list _, h | .str _, .struct _, h | .str _, .tup _, h => by simp [Val.beq] at h
+  | .nil, .int _, h | .nil, .bool _, h | .nil, .str _, h | .nil, .list _, h | .nil, .struct _, h | .nil, .tup _, h => by simp [Val.beq] at h
+  | .list _, .int _, h | .list _, .bool _, h | .list _, .str _, h | .list _, .nil, h | .list _, .struct _, h | .list _, .tup _, h => by simp [Val.beq] at h
+  | .struct _, .int _, h | .struct _, .bool _, h | .struct _, .str _, h | .struct _, .nil, h | .struct _, .list _, h | .struct _, .tup _, h => by simp [Val.beq] at h
+  | .tup _, .int _, h | .tup _, .bool _, h | .tup _, .str _, h | .tup _, .nil, h | .tup _, .list _, h | .tup _, .struct _, h => by simp [Val.beq] at h
+theorem Val.eq_of_beqList : ∀ xs ys : List Val, Val.beqList xs ys = true → xs = ys
+  | [], [], _ => rfl
+  | x :: xs, y :: ys, h => by
+    simp [Val.beqList] at h
+    rw [Val.eq_of_beq x y h.1, Val.eq_of_beqList xs ys h.2]
+  | [], _ :: _, h => by simp [Val.beqList] at h
+  | _ :: _, [], h => by simp [Val.beqList] at h
+theorem Val.eq_of_beqFields : ∀ fs gs : List (String × Val), Val.beqFields fs gs = true → fs = gs
+  | [], [], _ => rfl
+  | (k, x) :: xs, (l, y) :: ys, h => by
+    simp [Val.beqFields] at h
+    rw [h.1.1, Val.eq_of_beq x y h.1.2, Val.eq_of_beqFields xs ys h.2]
+  | [], _ :: _, h => by simp [Val.beqFields] at h
+  | _ :: _, [], h => by simp [Val.beqFields] at h
+end
+
 section
 variable (p : Prog) (x : Ext) (cb : List Stmt → St → R (Flow × St))
 
@@ -187,6 +237,11 @@ variable (p : Prog) (x : Ext) (cb : List Stmt → St → R (Flow × St))
             pure (flowResult r2.1,
               match recv, r2.2.env rn with
               | .var y, some rv' => ({ r1.2 with eff := r2.2.eff } : St).set y rv'
+              | .sel (.var y) f, some rv' =>
+                if Val.beq r0.1 rv' then { r1.2 with eff := r2.2.eff } else
+                (match ({ r1.2 with eff := r2.2.eff } : St).env y with
+                 | some (.struct fs) => ({ r1.2 with eff := r2.2.eff } : St).set y (.struct (update f rv' fs))
+                 | _ => { r1.2 with eff := r2.2.eff })
               | _, _ => { r1.2 with eff := r2.2.eff })
         | _, _ => .stuck ("arity " ++ m)
       | none =>
